@@ -78,7 +78,7 @@ PURE = [
     r"iter::IntoIterator>::into_iter$|iter::IntoIterator for .*>::into_iter$",
     r"iter::Iterator::(enumerate|zip|skip|take|map|filter|filter_map|copied|cloned|chain|rev|peekable|fuse|inspect|by_ref|take_while|skip_while|scan|flat_map|flatten|sum|product|fold|for_each|all|any|count|max_by|min_by|max_by_key|min_by_key|position|rposition|last|nth|find|find_map|reduce|try_fold|try_for_each|size_hint|eq|lt|le|gt|ge|is_sorted)$",
     r"iter::(traits::)?\w+::\w+::(next|next_back|len|size_hint|fold|nth)$",
-    r"<(std|core)::(iter|slice|ops|option|result)::[\w:]+(<.*>)? as (std|core)::iter::(Iterator|DoubleEndedIterator|ExactSizeIterator)>::\w+$",
+    r"<(std|core)::(iter|slice|ops|option|result|array)::[\w:]+(<.*>)? as (std|core)::iter::(Iterator|DoubleEndedIterator|ExactSizeIterator)>::\w+$",
     r"iter::range::<impl (std|core)::iter::(Iterator|DoubleEndedIterator) for (std|core)::ops::Range(Inclusive)?<.*>>::\w+$",
     r"<impl \[[^\]]*\]>::(iter|iter_mut|len|is_empty|first|last|get|get_mut|fill|fill_with|first_mut|last_mut|contains|split_first|split_last|starts_with|ends_with|reverse|binary_search\w*)$",
     r"array::<impl .*>::\w+$",
